@@ -191,11 +191,13 @@ PayAll(st, F) ==
                 !.paid = [k \in DOMAIN st.paid |-> IF k \in ks THEN AddC(st.paid[k], TruncC(st.rem[k])) ELSE st.paid[k]],
                 !.rem = [k \in DOMAIN st.rem |-> IF k \in ks THEN FracC(st.rem[k]) ELSE st.rem[k]]]
 
-RunBlock(c, F) ==
-  LET st0 == [bal |-> bal, rem |-> rem, inflow |-> ZeroC, default |-> ZeroC, entitled |-> entitled, paid |-> paid,
-              requeued |-> requeued, events |-> <<>>, inflows |-> <<>>, sdname |-> "", exact |-> TRUE]
+\* the block on an explicit pre-state (used by the composition in Chain.tla)
+RunBlockFrom(b0, r0, e0, p0, q0, c, F) ==
+  LET st0 == [bal |-> b0, rem |-> r0, inflow |-> ZeroC, default |-> ZeroC, entitled |-> e0, paid |-> p0,
+              requeued |-> q0, events |-> <<>>, inflows |-> <<>>, sdname |-> "", exact |-> TRUE]
       st1 == FoldSeq(LAMBDA x, y : RunSD(F, x, y), st0, c)
   IN PayAll(st1, F)
+RunBlock(c, F) == RunBlockFrom(bal, rem, entitled, paid, requeued, c, F)
 
 \* fault targets that make sense for a configuration
 FaultTargets(c) == { "sweep:" \o Key(Flat(c, 1)[i].acc) : i \in { j \in DOMAIN Flat(c, 1) : Flat(c, 1)[j].role = "S" /\ IsBank(Flat(c, 1)[j].acc) } }
